@@ -39,6 +39,10 @@ type apiCase struct {
 	useHandles bool
 	names      [][2]string // name and author passed to AddWarrior, per warrior
 	maxCycles  int
+	// slices returned by Queue() at the previous observation and what they held then: an answer
+	// already given must not change afterwards, and writing into it must not reach the simulator
+	retained     [][]gmars.Address
+	retainedCopy [][]gmars.Address
 }
 
 func cellStr(i gmars.Instruction) string {
@@ -100,6 +104,19 @@ var apiCaseNo int
 func newAPICase(out *bufio.Writer, id, tag string, cfg gmars.SimulatorConfig, recordReads bool) *apiCase {
 	apiCaseNo++
 	c := &apiCase{out: out, deadline: 5 * time.Second, useHandles: apiCaseNo%2 == 1}
+	// the rule set must not matter to the simulator: every case runs under one of the three modes,
+	// chosen by the case id (the two placements of a rotation pair share it)
+	{
+		key := id
+		if tag == "rot" && len(key) > 0 {
+			key = key[:len(key)-1]
+		}
+		h := uint32(2166136261)
+		for i := 0; i < len(key); i++ {
+			h = (h ^ uint32(key[i])) * 16777619
+		}
+		cfg.Mode = []gmars.SimulatorMode{gmars.ICWS94, gmars.ICWS88, gmars.NOP94}[h%3]
+	}
 	if apiTimeouts >= 3 {
 		c.dead, c.skipped = true, true
 		return c
@@ -151,6 +168,15 @@ func (c *apiCase) observe() string {
 	var sb strings.Builder
 	res := guarded(c.deadline, func() {
 		n := c.sim.WarriorCount()
+		for i := range c.retained {
+			for j := range c.retained[i] {
+				if c.retained[i][j] != c.retainedCopy[i][j] {
+					fmt.Fprintf(&sb, "queue-answer-%d-changed-afterwards ", i)
+					break
+				}
+			}
+		}
+		c.retained, c.retainedCopy = c.retained[:0], c.retainedCopy[:0]
 		fmt.Fprintf(&sb, "c=%d l=%d n=%d w=", c.sim.CycleCount(), c.sim.WarriorLivingCount(), n)
 		for i := 0; i < n; i++ {
 			if i > 0 {
@@ -165,11 +191,20 @@ func (c *apiCase) observe() string {
 				a = 1
 			}
 			fmt.Fprintf(&sb, "%d:", a)
-			for j, q := range w.Queue() {
+			qv := w.Queue()
+			for j, q := range qv {
 				if j > 0 {
 					sb.WriteString(",")
 				}
 				fmt.Fprintf(&sb, "%d", q)
+			}
+			if len(qv) <= 4096 {
+				c.retained = append(c.retained, qv)
+				c.retainedCopy = append(c.retainedCopy, append([]gmars.Address(nil), qv...))
+				// a second answer is scribbled over: the caller owns what it was given
+				for j, scratch := 0, w.Queue(); j < len(scratch); j++ {
+					scratch[j] = gmars.Address(c.m) + 12345
+				}
 			}
 		}
 		sb.WriteString(" m=")
